@@ -511,6 +511,31 @@ def check_network(label, net, tier, seed, want):
     # never targeted
     _idx0 = [r.idxfromfile for r in net.reactions]
     key_of = list(range(len(_idx0))) if all(i == -1 for i in _idx0) else [(i if i != -1 else None) for i in _idx0]
+    if "C13" in want and (net.rate_modifier or {}) and _idx0 and all(i != -1 for i in _idx0):
+        # export of a fully indexed network: in the exported project every modifier key still names the reactions it named in the network
+        # (the exchange file keeps the indices, the project file keeps the keys)
+        import copy as _copy
+        d_ = tempfile.mkdtemp(prefix="vf_c13exp_")
+        try:
+            from naunet.network import Network as _NetX
+            import tomlkit as _tk
+            src = [(r.idxfromfile, sorted(s.name for s in r.reactants), sorted(s.name for s in r.products)) for r in net.reactions]
+            with contextlib.redirect_stdout(io.StringIO()):
+                net.export("proj", prefix=d_)
+            keys = [int(k) for k in _tk.loads(open(os.path.join(d_, "proj", "naunet_config.toml")).read())["chemistry"]["rate_modifier"]]
+            fresh_keep = (list(Species.known_elements()), list(Species.known_pseudoelements()))
+            back = _NetX(filelist=os.path.join(d_, "proj", "reactions.naunet"), fileformats="naunet", **({"elements": list(net._known_elements), "pseudo_elements": list(net._known_pseudo_elements)} if net._known_elements else {}))
+            got = [(r.idxfromfile, sorted(s.name for s in r.reactants), sorted(s.name for s in r.products)) for r in back.reaction_list]
+            for k in sorted(set(keys) | set(net.rate_modifier)):
+                a_ = sorted((x[1], x[2]) for x in src if x[0] == k)
+                b_ = sorted((x[1], x[2]) for x in got if x[0] == k)
+                if a_ != b_:
+                    V("C13", f"exported-project-modifier-target: rate-modifier key {k} names {a_} in the network but {b_} in the exported project (reactions.naunet + naunet_config.toml)")
+                    break
+        except Exception as e:
+            V("C13", f"export-raises: {type(e).__name__}: {e}")
+        finally:
+            shutil.rmtree(d_, ignore_errors=True)
     if "C13" in want and ((net.rate_modifier or {}) or (net.ode_modifier or {})):
         # both kinds of modifier reach the project file unchanged (the path `naunet render` reads them back from)
         try:
